@@ -208,6 +208,53 @@ def genData {G : Type} (P : PRNG G) (st : Store G) (a : SeedArg) (probs : List R
     Option (List Int × Store G) :=
   (genDataOn P st (toStream P a) probs n).map fun r => (r.1, r.2.1)
 
+/-! ### error branches of `generate_data_from_prob_dist` (in the order of the code) -/
+
+inductive GenErr
+  | negativeEntry (index : Nat)   -- validate_prob_dist: an entry below −eps (ValueError)
+  | sumNotOne                     -- validate_prob_dist: |Σ − 1| > eps (ValueError)
+  | negativeSeed                  -- to_stream: `MT19937(seed)` with a negative int (ValueError)
+  | notAStream                    -- `stream.random` on something that is not a generator: np.int64, bool, float … (AttributeError)
+  | noGenerator                   -- (model only) a generator handle the caller does not hold
+deriving Repr, DecidableEq
+
+def GenErr.toString : GenErr → String
+  | .negativeEntry i => s!"negativeEntry {i}" | .sumNotOne => "sumNotOne" | .negativeSeed => "negativeSeed"
+  | .notAStream => "notAStream" | .noGenerator => "noGenerator"
+
+def rabs (q : Rat) : Rat := if q < 0 then -q else q
+
+/-- first entry with `prob < 0 and not isclose(prob, 0, atol=eps, rtol=0)` -/
+def firstNegative (eps : Rat) : List Rat → Nat → Option Nat
+  | [], _ => none
+  | p :: ps, idx => if p < 0 ∧ ¬ rabs p ≤ eps then some idx else firstNegative eps ps (idx + 1)
+
+/-- `validate_prob_dist(prob_dist, eps=atol)` -/
+def validateProb (probs : List Rat) (eps : Rat) : Except GenErr Unit :=
+  match firstNegative eps probs 0 with
+  | some i => .error (.negativeEntry i)
+  | none => if rabs (probs.foldr (· + ·) 0 - 1) ≤ eps then .ok () else .error .sumNotOne
+
+/-- `generate_data_from_prob_dist(prob_dist, data_num, seed_or_generator)` with its error branches, in the order of the code:
+validation of the vector, `to_stream` (a negative int seed raises), `stream.random` (fails on a non-generator). Returns the
+result AND the store after the call: on every error nothing has been drawn. -/
+def genDataE {G : Type} (P : PRNG G) (st : Store G) (a : SeedArg) (probs : List Rat) (n : Nat) (eps : Rat) :
+    Except GenErr (List Int) × Store G :=
+  match validateProb probs eps with
+  | .error e => (.error e, st)
+  | .ok () =>
+    match a with
+    | .int s =>
+      if s < 0 then (.error .negativeSeed, st)
+      else match genData P st a probs n with
+        | some (d, st') => (.ok d, st')
+        | none => (.error .noGenerator, st)
+    | .other => (.error .notAStream, st)
+    | _ =>
+      match genData P st a probs n with
+      | some (d, st') => (.ok d, st')
+      | none => (.error .noGenerator, st)
+
 /-- `Experiment.generate_dataset`: `stream = to_stream(arg)`; `seeds_or_generators = [stream] * len`;
 every schedule draws from the same stream object in order -/
 def genDatasetOn {G : Type} (P : PRNG G) : Store G → Stream G → List (List Rat × Nat) →
@@ -335,6 +382,26 @@ def handle (args : List String) : Option String :=
       | none => some "no-generator"
       | some (ds, st) =>
         some s!"{"|".intercalate (ds.map (showList toString))} left={st.glob.us.length},{showList toString (st.gens.map (·.us.length))}"
+  | ["gde", eps, arg, tape, probs, n] => do
+      -- generate_data_from_prob_dist with its error branches; one tape serves whichever stream the argument selects
+      let eps ← parseRat? eps
+      let tape ← parseList? parseRat? tape
+      let probs ← parseList? parseRat? probs
+      let n ← parseNat? n
+      let a ← if arg = "N" then some SeedArg.none
+              else if arg = "O" then some SeedArg.other
+              else if arg = "G" then some (SeedArg.gen 0)
+              else if arg.startsWith "I" then (String.ofList (arg.toList.drop 1)).toInt?.map SeedArg.int
+              else none
+      let seeds : List (Int × List Rat) := match a with | .int s => [(s, tape)] | _ => []
+      let (r, st) := genDataE (tablePRNG seeds) ⟨⟨tape, []⟩, [⟨tape, []⟩]⟩ a probs n eps
+      let drawn := match a with
+        | .none => tape.length - st.glob.us.length
+        | .gen _ => tape.length - ((st.gens.map fun (t : Tape) => t.us.length).headD 0)
+        | _ => 0
+      match r with
+      | .ok d => some s!"ok {showList toString d} drawn={drawn}"
+      | .error e => some s!"err {e.toString} drawn={drawn}"
   | ["data", probs, us] => do
       let probs ← parseList? parseRat? probs
       let us ← parseList? parseRat? us
